@@ -929,6 +929,18 @@ func (c *FnCtx) havocLoc(m *ModLoc, pkg *Pkg, bind map[string]string, pre, st *S
 	obj := c.evalSynth(m.GoFn, pkg, args, pre, true)
 	ot := c.synthResultType(m.GoFn, pkg)
 	switch m.Kind {
+	case "subtree":
+		bases := c.subtreeBases(ot)
+		for _, b := range sortedKeys(bases) {
+			c.heapSort[b] = bases[b]
+			st.heap[b] = c.fresh("hv_"+b, bases[b])
+			c.heapAxioms(st, b, st.heap[b])
+		}
+		for _, b := range sortedKeys(bases) {
+			if ax := c.closureAxiom(st.heap[b], b, c.alloc(st)); ax != "" {
+				st.addDef(ax)
+			}
+		}
 	case "field":
 		pt, ok := ot.Underlying().(*types.Pointer)
 		if !ok {
@@ -1003,6 +1015,33 @@ func (c *FnCtx) coverModifies(con *FuncContract, pkg *Pkg, bind map[string]strin
 		obj := c.evalSynth(m.GoFn, pkg, args, pre, true)
 		ot := c.synthResultType(m.GoFn, pkg)
 		switch m.Kind {
+		case "subtree":
+			// type-level: the callee's field arrays must be among the caller's
+			mine := map[string]string{}
+			if c.con != nil {
+				for _, m2 := range c.con.Modifies {
+					if m2.Kind == "subtree" {
+						for b, s := range c.subtreeBases(c.synthResultType(m2.GoFn, c.pkg)) {
+							mine[b] = s
+						}
+					}
+				}
+			}
+			covered := c.con != nil && c.con.ModHeap
+			if !covered {
+				covered = true
+				for b := range c.subtreeBases(ot) {
+					if _, ok := mine[b]; !ok {
+						covered = false
+					}
+				}
+			}
+			if !covered && c.frameOn {
+				save := c.curProp
+				c.curProp = c.frameProp()
+				c.oblige(pre, "frame", "frame[call "+fname+": subtree("+m.Text+")]", "false", pos, "call "+fname+": subtree("+m.Text+") is not within the caller's modifies")
+				c.curProp = save
+			}
 		case "field":
 			c.frameCheckField(pre, obj, ot.Underlying().(*types.Pointer).Elem(), m.Fld, "call "+fname+": "+m.Text+"."+m.Fld, pos)
 		case "mapall":
@@ -1258,6 +1297,11 @@ func (c *FnCtx) scanCallWrites(x *ast.CallExpr, li *loopInfo) {
 			}
 			ot := c.synthResultType(m.GoFn, pkg)
 			switch m.Kind {
+			case "subtree":
+				for b, s := range c.subtreeBases(ot) {
+					li.heapBases[b] = true
+					c.eng.baseSorts[b] = s
+				}
 			case "field":
 				n, s := c.fieldArr(ot.Underlying().(*types.Pointer).Elem(), m.Fld)
 				li.heapBases[n] = true
